@@ -1024,8 +1024,6 @@ type fsmap = (bytes * fsentry) list
 
 val fs_lookup : fsmap -> bytes -> fsentry option
 
-val split_on : n -> bytes -> bytes -> bytes list
-
 val segments : bytes -> bytes list
 
 val dot : n list
@@ -1037,6 +1035,16 @@ val clean_segs : bytes list -> bytes list -> bytes list
 val join_segs : bytes list -> bytes
 
 val join_dir : bytes -> bytes -> bytes
+
+type stat_res =
+| SFile of bytes
+| SDir
+| SMissing
+| SNotDir
+
+val proper_prefixes : bytes list -> bytes list -> bytes list list
+
+val stat_path : fsmap -> bytes -> stat_res
 
 val eval_icond : icond -> bytes -> bool option
 
